@@ -1,5 +1,31 @@
 import KrroodVerif.Sexp
+import KrroodVerif.Model.SymbolGraph
+import KrroodVerif.Drive.SG
+/-!
+C14 driver. Case: `(h <op> …)`. Observation: the relation triples among live instances and the contents of the
+managed fields of live instances, or `exc` when an assertion raised.
+`model=` the code as it is, `model_fixed=` with `fixes/C14_purge_relation_index.diff`, `spec=` the history read at the
+level of objects (`specRun`), which by `C14_fresh_equiv` is what the same assertions give on a fresh graph.
+-/
 namespace KrroodVerif.Drive.C14
-/-- stub: replaced when the model for C14 is built -/
-def run (_ : Sexp) : String := "model=unimplemented\tspec=unimplemented\ttrig="
+open KrroodVerif KrroodVerif.SG KrroodVerif.Drive.SG
+
+def showObs : Option (List (Fld × Obj × Obj) × List (Obj × Fld × Obj)) → String
+  | none => "exc"
+  | some (rels, flds) =>
+    "rels=" ++ show3 rels ++ " fields=" ++ showList ((sort3 flds).map fun t => s!"{t.1}.{t.2.1}={t.2.2}")
+
+def run (s : Sexp) : String :=
+  match s with
+  | .list (.atom "h" :: xs) =>
+    match parseOps xs with
+    | some ops =>
+      let st := runD Quirks.asIs ops
+      let m := showObs st.relObs
+      let mf := showObs (runD Quirks.c14Fixed ops).relObs
+      let sp := showObs (specRunD Quirks.asIs ops).relObs
+      let trig := joinTrig [(st.staleHit, "F-C14-1"), (st.deadHit, "F-C14-2")]
+      s!"model={m}\tspec={sp}\ttrig={trig}\tmodel_fixed={mf}"
+    | none => "error=bad-case"
+  | _ => "error=bad-case"
 end KrroodVerif.Drive.C14
